@@ -741,11 +741,20 @@ class EventSource(object):
         parts = []
         ejson = None
         lineParser = parseLine(raw=self.raw, eols=(CRLF, LF, CR ), kind="event line")
+        crlast = False  # True when last line ended with CR as last byte received
         while True:
+            if crlast and self.raw:  # first bytes received after that CR
+                if self.raw[:1] == LF:  # CRLF split across receives, line already ended
+                    del self.raw[:1]
+                crlast = False
+            tail = self.raw[-1:]  # last byte received so far
             line = next(lineParser)
             if line is None:
                 (yield None)
                 continue
+
+            if tail == CR and not self.raw:  # line ended by CR that may be CR of CRLF
+                crlast = True
 
             if not line or self.closed:  # empty line or closed so attempt dispatch
                 if parts:
